@@ -174,6 +174,14 @@ def cbmc_cmd(ob, gb, trace=False):
         if f in flags:
             flags.remove(f)
     cmd += flags + list(ob.get("flags", []))
+    be = ob.get("backend")
+    if be == "cvc5-int":
+        # cvc5 through tools/shim/cvc5 (--solve-bv-as-int=sum): multiply/divide-by-constant kernels that stall SAT
+        cmd += ["--cvc5", "--slice-formula"]
+    elif be in ("z3", "cvc5"):
+        cmd += ["--" + be]
+    elif be in ("cadical",):
+        cmd += ["--sat-solver", be]
     if trace:
         cmd += ["--trace"]
     return cmd
@@ -186,7 +194,8 @@ def run_cbmc(ob, gb, work, timeout, trace=False):
     t0 = time.time()
     outpath = os.path.join(work, "cbmc.json")
     with open(outpath, "w") as out:
-        proc = subprocess.Popen(full, stdout=out, stderr=subprocess.PIPE, preexec_fn=limit_child)
+        env = dict(os.environ, PATH=os.path.join(ROOT, "tools", "shim") + ":" + os.environ.get("PATH", ""))
+        proc = subprocess.Popen(full, stdout=out, stderr=subprocess.PIPE, preexec_fn=limit_child, env=env)
         try:
             _, err = proc.communicate(timeout=timeout)
             timed_out = False
@@ -307,6 +316,19 @@ def extract_nd(trace):
             else:
                 v = int(val.get("data", "0"))
             ints[idx] = v
+    if not ints and not dbls:
+        # plain (non-recording) build: the choices in execution order (valid when formula slicing removed none
+        # of them, i.e. for obligations with a handful of choices; used with record=False)
+        seq = [st for st in trace if st.get("stepType") == "assignment" and st.get("lhs") == "return_value_nondet_long"]
+        for i, st in enumerate(seq):
+            b = st.get("value", {}).get("binary")
+            v = int(b, 2) if b else int(st.get("value", {}).get("data", "0").rstrip("l"))
+            if b and b[0] == "1" and len(b) == 64:
+                v -= 1 << 64
+            ints[i] = v
+        seqd = [st for st in trace if st.get("stepType") == "assignment" and st.get("lhs") == "return_value_nondet_double"]
+        for i, st in enumerate(seqd):
+            dbls[i] = st.get("value", {}).get("data", "0")
     li = [ints.get(i, 0) for i in range(max(ints) + 1)] if ints else []
     ld = [dbls.get(i, "0") for i in range(max(dbls) + 1)] if dbls else []
     return li, ld
@@ -360,7 +382,7 @@ def counterexample(ob, work, label_key, timeout):
     rwork = os.path.join(work, "record")
     os.makedirs(rwork, exist_ok=True)
     gen_config(rwork, ob.get("config"))
-    gb = build_goto(ob, rwork, record=True)
+    gb = build_goto(ob, rwork, record=ob.get("record", True))
     res = run_cbmc(ob, gb, rwork, timeout, trace=True)
     for r in res["results"]:
         kind, key = classify(ob, r)
